@@ -30,7 +30,7 @@ def plan(tier, seed):
 def gen_case(rng, ctx):
     cls, ds = gen.dataset(rng, classes="D2 D3 D3 D4 D6 D7 D8 D9 D10 D11", nmax=8, mmax=6)
     ds = libx.normalise_raw(ds)
-    scls, sch = gen.scheme(rng, "S1 S1 S2 S3 S3 S6")
+    scls, sch = gen.scheme(rng, "S1 S1 S2 S3 S3 S6 S9 S10 S10 S11")
     return {"ds": ds, "scheme": sch, "dcls": cls, "scls": scls, "libseed": rng.randrange(10 ** 6),
             "starters": rng.choice(STARTERS)}
 
